@@ -115,7 +115,7 @@ class C05(Engine):
 		'at least one state-changing op (edit of content, clear, lost file, fault) between two judged runs')
 	quick_runs = 70
 	thorough_runs = 2500
-	quick_budget_s = 110.0
+	quick_budget_s = 90.0
 	thorough_budget_s = 1700.0
 	components_real = ['Runner', 'CacheProvider/CachedProxy/CachedDummy', 'SyntaxParserOfLark + Lark pickle save/load', 'SymbolDBPersistor', 'RestoreSymbols/StoreSymbols and the other preprocessors', 'FileLoader', 'Module.identity', 'Py2Cpp + Jinja renderer', 'Writer', 'real file system (tmpfs)']
 	components_stubbed = Engine.components_stubbed + ['builtins.open / os.unlink / os.makedirs / time.sleep interposed (trace + injected faults)', 'mtimes assigned by the simulated clock (os.utime)']
